@@ -11,6 +11,16 @@ PROPS = {
         "technique": "bounded exhaustive (stateless) exploration of operation sequences on the implementation, depth-bounded, with non-initial start states",
         "assumptions": ["a case cut by the per-case CPU/memory budget is counted as cut (C03's subject), not judged"],
     },
+    "C03": {
+        "bin": "px_cost", "budget_ms": 3000, "mem_cap_mb": 1024, "judge_budget": True, "wall_cap": {"quick": 150, "thorough": 2400},
+        "rule": "complete control-function table: CSI final 0x40..0x7E x 8 intermediates x parameter tuples of length 0..6 over {1,0,H,W,2^16,10^6,2^31-1} with <=2 (thorough <=3, full for <=4 parameters) "
+                "positions different from 1, in 4 start contexts on 80x25 and 132x60, plus explicit shape lists (DCS macro repeat / recursion shapes, sixel raster/repeat/colour headers, Avatar repeat and goto byte pairs, "
+                "PSF1/PSF2/raw font payload headers, music/OSC/SGR numbers); per case CPU, peak heap and allocation-scaling are measured in the worker; non-trivial = the input made the engine allocate",
+        "level_text": "every row of the control-function table (deviation-bounded) and every listed header shape is executed on the real parsers under a counting allocator and a CPU clock; nothing is sampled",
+        "level_note": "limits: 0.5 s CPU and 64 MiB peak live heap per input (legitimate work measured at <1 ms / <3 MiB); the file-header part of the property is covered by the C02 fault engine's header-extreme stratum under the same limits",
+        "technique": "exhaustive enumeration of a deviation-bounded parameter table on the implementation with a resource-usage oracle (deterministic allocation counts + CPU budget)",
+        "assumptions": ["boundedness is judged by a fixed budget on two screen sizes, not by fitting a polynomial"],
+    },
     "C09": {
         "bin": "px_stream", "budget_ms": 1500, "wall_cap": {"quick": 100, "thorough": 2400},
         "rule": "same explorer as C01 minus text-area resize tokens, plus every token pair repeated until 3*H line changes happened (deterministic replacement of the random scrollback-filling streams); "
@@ -55,6 +65,8 @@ PROPS = {
 HOOK_COMMITS = ["81babd1"]
 
 ENGINES = [
+    {"name": "px_cost", "path": "harness/src/bin/px_cost.rs", "serves_properties": ["C03"],
+     "kind_free_text": "control-function table enumerator with CPU / peak-heap / allocation-scaling oracle"},
     {"name": "px_sixel", "path": "harness/src/bin/px_sixel.rs", "serves_properties": ["C14"],
      "kind_free_text": "schedule enumerator for the sixel decode queue under the cfg gate + payload enumerator with a reference model"},
     {"name": "px_stream", "path": "harness/src/bin/px_stream.rs", "serves_properties": ["C01", "C09"],
